@@ -20,6 +20,12 @@ PROPS = {
         "trusted": ["modelled, not verified: time.Time.Year/Month/Day return the civil fields of the value (C13 covers how values get their fields), time.UnixMilli"],
         "assumptions": ["the six comparison methods and DateTime.Before are hand-modelled (nested ifs copied from the source) and tied by correspondence only"],
     },
+    "C18": {
+        "streams": [{"name": "codec", "env": {"TZ": "UTC"}}],
+        "rule": "codec stream on struct types built at run time with reflect.StructOf: all 19 kinds at every offset 2..63 as single-field layouts; random layouts of 1..12 packed fields (1 in 8 deliberately overlapping or overhanging: compared with the model only), decimal/hex/upper-case value tags on SOM, MsgType and byte fields, one level of embedding; per layout marshal of in-domain and wild values, unmarshal of the image, of mutated images (field bytes, non-BCD nibbles, header), of random payloads and wrong lengths; decode-then-scribble aliasing cases.",
+        "trusted": ["modelled, not verified: reflect walking struct fields in declaration order, regexp on the two tag patterns, strconv.ParseUint, time.Format/ParseInLocation for the layouts 20060102, 20060102150405, 060102, 150405 in UTC, netip.AddrPort.MarshalBinary/UnmarshalBinary, net.IP.To4"],
+        "assumptions": ["process time zone UTC in this stream (zones are C13's subject)", "round trip unmarshal(marshal v) = v is checked by oracle + correspondence, not yet a theorem"],
+    },
 }
 
 NOT_APPLICABLE = {}
@@ -32,5 +38,9 @@ MANIFEST_TEXT = {
     "C16": {
         "text": "Theorems for all integer field values: Before = strict lexicographic order, After = its mirror image, Equals = field equality, exactly one of the three holds, transitivity, irreflexivity; DateTime.Before = whole-second comparison for instants from 1970 (with the counterexample before 1970 that motivates the restriction); the SetTimeProfile segment guard accepts iff end is not before start.",
         "note": "Trusted: Lean kernel; the comparison functions are hand-modelled as the nested ifs of the source and tied by the correspondence run (adjacent days, boundaries, all/edge HH:mm pairs, random); time.Time field accessors assumed.",
+    },
+    "C18": {
+        "text": "Theorems for ALL layouts declarable with the tag grammar (well-formed: fields at non-overlapping offsets 2..63 inside the 64 bytes, decimal/hex tags, one level of embedding) and all in-domain values: Marshal of the model = the position-wise image of the specification (each field's arithmetic wire bytes at its offset, header from the tags, zero elsewhere) and never panics, also for a field ending on the last byte; Unmarshal never panics on any byte string; function-code and fixed-value tags are emitted and enforced; the slice readers copy. The codec model is parametrised by facts regenerated from the codec source and proved to be the ones the theorems need.",
+        "note": "Trusted: Lean kernel; translator facts (slice widths, endianness, ParseUint bases, embedded error propagation, reader copies, header constants, tag regexes); the hand-written codec interpreter and type codecs are tied by correspondence on reflect.StructOf types (every kind at every offset, random layouts); decode(encode v) = v is established by oracle + correspondence, not yet by a theorem; Go reflect/regexp/strconv/time/netip assumed.",
     },
 }
